@@ -20,4 +20,6 @@ def run(col, configs, tier):
         guarded(col, X.rule_divisibility_test, facts)
         guarded(col, X.rule_grisu_weed, facts)
         guarded(col, X.rule_grisu_boundaries, facts)
+        guarded(col, X.rule_dragonbox_left_endpoint, facts)
+        guarded(col, X.rule_grisu_margins, facts)
         guarded(col, X.rule_jeaiii, facts)
